@@ -33,3 +33,42 @@ Qed.
 (* a one-byte tag is read back as the old layout with an empty language *)
 Lemma elng_short_refuted : exists lang, no_nul lang = true /\ length lang = 1%nat /\ elng_decode (elng_payload lang) = Ok (true, []).
 Proof. exists [120]. vm_compute. repeat split; reflexivity. Qed.
+
+(* ------------------------------------------------------------------ stpp *)
+Lemma skipn_app_exact {A} (l r : list A) : skipn (length l) (l ++ r) = r.
+Proof. induction l as [|x l IH]; cbn [length skipn app]; [reflexivity|exact IH]. Qed.
+
+Lemma stpp_roundtrip dref ns schema mime :
+  dref < 65536 -> no_nul ns = true -> no_nul schema = true -> no_nul mime = true ->
+  stpp_decode (stpp_payload dref ns schema mime) = Ok (dref, ns, schema, mime, 0%nat).
+Proof.
+  intros Hd Hn Hs Hm. unfold stpp_payload, stpp_decode. cbn [app].
+  set (rest := ns ++ 0 :: schema ++ 0 :: mime ++ [0]).
+  assert (Hlen : length rest = (length ns + length schema + length mime + 3)%nat).
+  { unfold rest. rewrite !app_length. cbn [length]. rewrite !app_length. cbn [length]. rewrite !app_length. cbn [length]. lia. }
+  cbn [length]. rewrite Hlen.
+  replace (S (S (S (S (S (S (S (S (length ns + length schema + length mime + 3)))))))) - 8)%nat
+    with (length ns + length schema + length mime + 3)%nat by lia.
+  unfold rest at 1. rewrite read_zstr_ok; [|exact Hn|lia].
+  assert (Hsk1 : skipn (S (length ns)) rest = schema ++ 0 :: mime ++ [0]).
+  { unfold rest. replace (ns ++ 0 :: schema ++ 0 :: mime ++ [0]) with ((ns ++ [0]) ++ schema ++ 0 :: mime ++ [0])
+      by (rewrite <- app_assoc; reflexivity).
+    replace (S (length ns)) with (length (ns ++ [0])) by (rewrite app_length; cbn [length]; lia).
+    apply skipn_app_exact. }
+  rewrite Hsk1.
+  replace (length ns + length schema + length mime + 3 - S (length ns))%nat with (length schema + length mime + 2)%nat by lia.
+  destruct (Nat.ltb 0 (length schema + length mime + 2)) eqn:E1; [|apply Nat.ltb_ge in E1; lia].
+  rewrite read_zstr_ok; [|exact Hs|lia].
+  assert (Hsk2 : skipn (S (length schema)) (schema ++ 0 :: mime ++ [0]) = mime ++ [0]).
+  { replace (schema ++ 0 :: mime ++ [0]) with ((schema ++ [0]) ++ mime ++ [0]) by (rewrite <- app_assoc; reflexivity).
+    replace (S (length schema)) with (length (schema ++ [0])) by (rewrite app_length; cbn [length]; lia).
+    apply skipn_app_exact. }
+  rewrite Hsk2.
+  replace (length schema + length mime + 2 - S (length schema))%nat with (S (length mime)) by lia.
+  cbn [Nat.ltb Nat.leb].
+  change (mime ++ [0]) with (mime ++ 0 :: []).
+  rewrite read_zstr_ok; [|exact Hm|lia].
+  replace (S (length mime) - S (length mime))%nat with 0%nat by lia. cbn [Nat.ltb Nat.leb].
+  do 5 f_equal.
+  pose proof (N.div_mod dref 256). lia.
+Qed.
